@@ -31,6 +31,40 @@ type C11Scenario struct {
 	// offset of the NestedFrom-th event - two replays of one store overlap, from different start offsets
 	Nested     bool `json:"nested,omitempty"`
 	NestedFrom int  `json:"nested_from,omitempty"`
+	// Odd (bit set): 1 = timestamps are not monotonic in append order (every pair of neighbours is swapped: imported
+	// events, a clock stepped back); 2 = every fifth event's data is the JSON document null and every seventh has the
+	// empty type string. Log order is append order, and every stored event is an event.
+	Odd int `json:"odd,omitempty"`
+}
+
+// c11Event is the i-th event of the log; c11Index recovers i from what a replay hands to the callback (the
+// timestamp is unique per event, whatever the data is).
+func (sc *C11Scenario) c11Event(i int) *eventbus.Event {
+	ev := &eventbus.Event{Type: fmt.Sprintf("T%d", i%3), Data: json.RawMessage(fmt.Sprintf(`{"i":%d}`, i)), Timestamp: time.Unix(int64(i), 0).UTC()}
+	if sc.Odd&1 != 0 {
+		ev.Timestamp = time.Unix(int64(i^1), 0).UTC()
+	}
+	if sc.Odd&2 != 0 {
+		if i%5 == 4 {
+			ev.Data = json.RawMessage(`null`)
+		}
+		if i%7 == 6 {
+			ev.Type = ""
+		}
+	}
+	return ev
+}
+
+func (sc *C11Scenario) c11Index(e *eventbus.StoredEvent) int {
+	var d struct{ I *int }
+	if json.Unmarshal(e.Data, &d) == nil && d.I != nil {
+		return *d.I
+	}
+	i := int(e.Timestamp.Unix())
+	if sc.Odd&1 != 0 {
+		i ^= 1
+	}
+	return i
 }
 
 func genC11(rt *rapid.T) core.Scenario {
@@ -75,6 +109,9 @@ func genC11(rt *rapid.T) core.Scenario {
 	sc.Fault = rapid.SampledFrom(faults).Draw(rt, "fault")
 	sc.K = rapid.IntRange(0, sc.L+1).Draw(rt, "k")
 	sc.Yields = rapid.IntRange(0, 1).Draw(rt, "yields")
+	if rapid.IntRange(0, 2).Draw(rt, "oddLog") == 2 {
+		sc.Odd = rapid.IntRange(1, 3).Draw(rt, "odd")
+	}
 	if sc.Fault == "none" && sc.Store.Kind != "ds" && rapid.IntRange(0, 1).Draw(rt, "nested") == 1 {
 		sc.Nested = true
 		sc.NestedFrom = rapid.IntRange(0, sc.L).Draw(rt, "nestedFrom")
@@ -101,7 +138,7 @@ func (sc *C11Scenario) Execute(t *testing.T) *core.Outcome {
 		ctx := context.Background()
 		var offs []eventbus.Offset
 		for i := 0; i < sc.L; i++ {
-			off, err := inner.Append(ctx, &eventbus.Event{Type: fmt.Sprintf("T%d", i%3), Data: json.RawMessage(fmt.Sprintf(`{"i":%d}`, i)), Timestamp: time.Unix(int64(i), 0).UTC()})
+			off, err := inner.Append(ctx, sc.c11Event(i))
 			if err != nil {
 				out.HarnessErr = "append: " + err.Error()
 				return
@@ -165,10 +202,9 @@ func (sc *C11Scenario) Execute(t *testing.T) *core.Outcome {
 			if erred {
 				callsAfterErr++
 			}
-			var d struct{ I int }
-			json.Unmarshal(e.Data, &d)
-			got = append(got, d.I)
-			rec.Add("cb", d.I, 0, "")
+			ix := sc.c11Index(e)
+			got = append(got, ix)
+			rec.Add("cb", ix, 0, "")
 			k := calls
 			calls++
 			for i := 0; i < sc.Yields; i++ {
@@ -181,9 +217,7 @@ func (sc *C11Scenario) Execute(t *testing.T) *core.Outcome {
 				}
 				var ngot []int
 				nerr := bus.Replay(ctx, nfrom, func(e *eventbus.StoredEvent) error {
-					var d struct{ I int }
-					json.Unmarshal(e.Data, &d)
-					ngot = append(ngot, d.I)
+					ngot = append(ngot, sc.c11Index(e))
 					return nil
 				})
 				if nerr != nil || !reflect.DeepEqual(ngot, seq(sc.NestedFrom, sc.L)) && !(len(ngot) == 0 && sc.NestedFrom == sc.L) {
